@@ -30,6 +30,11 @@ type encCase struct {
 	// Proto (TCP only): value written into the request's exported MBAPHeader.ProtocolID field before it is serialised. Whatever a
 	// caller leaves in that field, the frame carries protocol id 0 (the specification's only value).
 	Proto uint16 `json:"proto,omitempty"`
+	// Sibling ("unit" | "addr" | "qty" | "tx" | "value"): directly before the request of the case, a request that differs from it only
+	// in that argument (by SiblingXor) is constructed and serialised - what a program polling several similar devices does. What was
+	// serialised before must not matter.
+	Sibling    string `json:"sibling,omitempty"`
+	SiblingXor uint16 `json:"sibling_xor,omitempty"`
 }
 
 // expected returns the specification-level request the arguments denote.
@@ -87,6 +92,34 @@ func runEnc(c encCase) harness.Result {
 				labels = append(labels, "protocol-id-field-set")
 			}
 		}
+	}
+	{
+		// first an unrelated request of the same kind: whatever an earlier case left in a one-entry memo of the library is gone, so that a
+		// failure of this case depends on this case alone (and its replay file reproduces it)
+		n := r
+		n.Unit, n.Addr, n.Tx = r.Unit^0xA5, r.Addr^0x5A5A, r.Tx^0x3C3C
+		if nq, err := cat.NewRequest(c.Framing, n); err == nil {
+			_ = nq.Bytes()
+		}
+	}
+	if c.Sibling != "" {
+		s := r
+		switch c.Sibling {
+		case "unit":
+			s.Unit ^= uint8(c.SiblingXor)
+		case "addr":
+			s.Addr ^= c.SiblingXor
+		case "qty":
+			s.Qty ^= c.SiblingXor
+		case "tx":
+			s.Tx ^= c.SiblingXor
+		case "value":
+			s.Value ^= c.SiblingXor
+		}
+		if sq, err := cat.NewRequest(c.Framing, s); err == nil {
+			_ = sq.Bytes()
+		}
+		labels = append(labels, "after-sibling-differing-in:"+c.Sibling)
 	}
 	got := q.Bytes()
 	if q.FunctionCode() != r.FC {
@@ -246,10 +279,17 @@ func genEnc(t *rapid.T) encCase {
 	if c.Framing == spec.TCP && rapid.IntRange(0, 3).Draw(t, "proto_field") == 0 {
 		c.Proto = uint16(rapid.SampledFrom([]int{1, 0x0100, 0x1234, 0xFFFF}).Draw(t, "proto"))
 	}
+	if rapid.IntRange(0, 2).Draw(t, "with_sibling") == 0 {
+		c.Sibling = rapid.SampledFrom([]string{"unit", "unit", "addr", "qty", "tx", "value"}).Draw(t, "sibling")
+		c.SiblingXor = uint16(1) << rapid.IntRange(0, 15).Draw(t, "sibling_bit")
+		if c.Sibling == "unit" {
+			c.SiblingXor = uint16(rapid.SampledFrom([]int{1, 2, 4, 8, 0x10, 0x20, 0x40, 0x80, 0xF0, 0x0F, 0xFF}).Draw(t, "sibling_mask"))
+		}
+	}
 	return c
 }
 
-var chkEnc = harness.Define("encode-vs-spec", genEnc, runEnc)
+var chkEnc = harness.Define("encode-vs-spec", genEnc, runEnc).Repeated(2)
 
 func TestFindings(t *testing.T) {
 	harness.Probe(t, "fc16-accepts-124-registers", func(f harness.Finding) (bool, string) {
@@ -466,7 +506,7 @@ func genBuilder(t *rapid.T) builderCase {
 	return c
 }
 
-var chkBuilder = harness.Define("builder-request-frames", genBuilder, runBuilder)
+var chkBuilder = harness.Define("builder-request-frames", genBuilder, runBuilder).Repeated(2)
 
 func TestBuilderRandom(t *testing.T) { chkBuilder.Rapid(t, harness.Pick(3000, 200000)) }
 
